@@ -489,7 +489,6 @@ macro_rules! __cim_flat_map {
         ($($rem:tt)*)
         ($($elem:tt)*) $(-> $ret_ty:ty)? $v:block
     ) => ({
-        let $($elem)* = $item;
         $crate::__call_iter_methods!{
             ($vars $macro $prev_args ($break_label) $next_fn $allowed_methods)
             ($vars $macro $prev_args ($break_label) $next_fn $allowed_methods)
@@ -497,9 +496,14 @@ macro_rules! __cim_flat_map {
             (
                 (
                     {
-                        iter = $crate::into_iter_macro!(
-                            $crate::__annotate_type!{$($ret_ty)? => $v}
-                        )
+                        // the closure parameter is bound inside this block,
+                        // so that it's not visible to the methods that come after `flat_map`
+                        iter = {
+                            let $($elem)* = $item;
+                            $crate::into_iter_macro!(
+                                $crate::__annotate_type!{$($ret_ty)? => $v}
+                            )
+                        }
                     }
                     let $item = if let $crate::__::Some((elem_, next_)) = iter.$next_fn() {
                         iter = next_;
